@@ -733,6 +733,62 @@ pub fn check_formula(text: &str, via_cli: bool) -> Check {
     })
 }
 
+/// The same pieces put together slightly differently: a list split at another point, operands in another
+/// order, the other quantifier / fixed-point kind, a neighbouring constant or comparison.
+pub fn near_copy(a: &RAst, t: &mut Tape) -> RAst {
+    use crate::rast::CNTOPS;
+    match a {
+        RAst::CountList(op, l, r) => {
+            let mut l2 = l.clone();
+            let mut r2 = r.clone();
+            match t.choose(3) {
+                0 if l2.len() > 1 => {
+                    let x = l2.pop().unwrap();
+                    r2.insert(0, x);
+                }
+                0 | 1 if r2.len() > 1 => {
+                    let x = r2.remove(0);
+                    l2.push(x);
+                }
+                1 if l2.len() > 1 => {
+                    let x = l2.pop().unwrap();
+                    r2.insert(0, x);
+                }
+                _ => return RAst::CountList(CNTOPS[t.choose(5)], l2, r2),
+            }
+            RAst::CountList(*op, l2, r2)
+        }
+        RAst::CountConst(op, l, n) => match t.choose(3) {
+            0 => RAst::CountConst(*op, l.clone(), if *n == u64::MAX { *n - 1 } else { *n + 1 }),
+            1 => RAst::CountConst(CNTOPS[t.choose(5)], l.clone(), *n),
+            _ => {
+                let mut l2 = l.clone();
+                l2.reverse();
+                RAst::CountConst(*op, l2, *n)
+            }
+        },
+        RAst::Quant(ex, ns, b) => {
+            if t.flag() {
+                RAst::Quant(!*ex, ns.clone(), b.clone())
+            } else {
+                let mut n2 = ns.clone();
+                n2.reverse();
+                RAst::Quant(*ex, n2, Box::new(near_copy(b, t)))
+            }
+        }
+        RAst::Fix(n, g, b) => RAst::Fix(n.clone(), !*g, b.clone()),
+        RAst::Not(b) => RAst::not(near_copy(b, t)),
+        RAst::Bin(op, x, y) => match t.choose(3) {
+            0 => RAst::bin(*op, (**y).clone(), (**x).clone()),
+            1 => RAst::bin(*op, near_copy(x, t), (**y).clone()),
+            _ => RAst::bin(*op, (**x).clone(), near_copy(y, t)),
+        },
+        RAst::Ite(c, x, y) => RAst::Ite(c.clone(), y.clone(), x.clone()),
+        RAst::Var(n) => RAst::var(if n == "b" { "a" } else { "b" }),
+        other => other.clone(),
+    }
+}
+
 /// The parse-tree export alone (no evaluation): for texts whose evaluation would be expensive.
 pub fn check_tree_only(text: &str) -> Check {
     let cj = json!({"kind": "tree-only", "text": text});
@@ -855,6 +911,11 @@ pub fn run(ctx: &mut Ctx) -> Result<(), Violation> {
         cfg.allow_ref = true;
         cfg.max_list = 4;
         let mut ast = gen::formula(&mut t, &cfg);
+        if t.chance(70) {
+            // a near copy next to the original: same pieces, split / ordered / bound differently
+            let twin = near_copy(&ast, &mut t);
+            ast = RAst::bin(crate::rast::BINOPS[t.choose(8)], ast, twin);
+        }
         if t.chance(90) {
             // force a repeated sub-term
             ast = RAst::bin(crate::rast::BINOPS[t.choose(8)], ast.clone(), RAst::bin(BinOp::Or, ast, RAst::var("b")));
@@ -887,6 +948,35 @@ pub fn run(ctx: &mut Ctx) -> Result<(), Violation> {
         check_formula(&text, via_cli)
     });
     ctx.stage("formulas-parse-tree-and-named-diagram", false, r)?;
+
+    // every pair of list-versus-list comparisons over the sequence a, b, c, d (all split points x all
+    // operators), side by side: nodes that differ only in where the two lists are split must stay apart
+    let names = ["a", "b", "c", "d"];
+    let mut twins: Vec<String> = Vec::new();
+    let ops = ["<=", "<", ">=", ">", "="];
+    let side = |i: usize, j: usize| format!("[{}]", names[i..j].join(", "));
+    for s1 in 0..=4usize {
+        for s2 in 0..=4usize {
+            for (oi, o1) in ops.iter().enumerate() {
+                for o2 in [ops[oi], ops[(oi + 1) % 5]] {
+                    if s1 == s2 && *o1 == o2 {
+                        continue;
+                    }
+                    twins.push(format!("({} {} {}) & ({} {} {})", side(0, s1), o1, side(s1, 4), side(0, s2), o2, side(s2, 4)));
+                    twins.push(format!("[{} {} {}, {} {} {}] >= 1", side(0, s1), o1, side(s1, 4), side(0, s2), o2, side(s2, 4)));
+                }
+            }
+        }
+    }
+    let r = par_jobs(ctx, &twins, |text, st| {
+        st.eval();
+        st.class("twin-list-comparisons");
+        if st.nontrivial(fnv_str(text)) {
+            st.nt_sample(|| json!({"kind": "tree-only", "text": text}));
+        }
+        check_tree_only(text)
+    });
+    ctx.stage("parse-trees-of-twin-list-comparisons", true, r)?;
 
     let sizes: Vec<usize> = ctx.tier.pick(vec![40, 129, 255, 256, 257, 300], vec![40, 127, 128, 129, 254, 255, 256, 257, 258, 300, 513, 1100, 65537]);
     let mut jobs: Vec<(usize, usize)> = Vec::new();
